@@ -22,6 +22,10 @@ CLAIMS = {
          "unsigned / foreign / other-authority / delegate 0,1,2 / emptied-token-account / coherent-foreign-(config,authority) variants; TLC checks ok => Guard (module WpIface: the authority "
          "recorded in the abstract state signed), base instructions succeed, failures are atomic; toy instance: OwnerSigned",
          "exhaustive over the finite matrix of the prepared world; the spec's Guard is the oracle", "4 C04"),
+ "C10": ("TLC generates every layout of initialized ticks over boundary slots of the three-array window (PackagingModel); the harness replays each in three encodings under nine packagings; "
+         "TLC validates each recorded swap against the path predicate of the spec (crossed = initialized ticks between start and end tick over all ticks of the pool, once, in order, "
+         "net applied, no step jumps a tick) and the packaging-invariance / fail-rather-than-skip / foreign-array predicates; toy instance: crossing rules compose (LiqSum, TickSums)",
+         "quick samples 240 layouts; thorough runs all 4764 x 8 seeds", "4 C10"),
  "C14": ("trace validation of every recorded swap on adaptive-fee pools (random valid constants, arbitrary non-decreasing clocks, zero-liquidity gaps, limits inside tick-group boundary "
          "ticks): the spec's UpdateReference / Acc / AdaptiveRate / TotalRate are evaluated per step for every tick group the step's price segment spans, and on the stored variables "
          "after the swap; trade-enable time; major-swap timestamp", "needs the swap-step hook; the tick groups spanned by a step are computed with the program's own tick math (C09 covers it); no toy-scale model of the volatility schedule yet", "4 C14"),
